@@ -952,6 +952,40 @@ func main() {
 		contains(dec, `if ufs != nil && ufs\.Size\(\) > 0 \{ \*\(\*\[\]byte\)\(unsafe\.Add\(base, sd\.unknownFieldsOffset\)\) = ufs\.Copy\(b\) \} return i, nil \}$`) &&
 		contains(dec, `fid := binary\.BigEndian\.Uint16\(b\[i:\]\) i \+= 2`) && c["fieldHeaderLen"] == 3
 	w("  unknownIndexProtocol := %v\n", ufOK)
+	// C08: on the encode / size / decode paths the shared descriptors (type nodes, struct and field
+	// descriptors) are read-only: no assignment to, increment of, or address taken of a field reached
+	// from a descriptor
+	hotFiles := map[string]bool{"decoder.go": true, "append.go": true, "append_list.go": true, "append_list_fast.go": true,
+		"append_map.go": true, "append_map_fast.go": true, "reflect.go": true}
+	hotMethods := map[string]bool{"EncodedSize": true, "encodedMapSize": true, "encodedListSize": true, "Equal": true}
+	var descWrites []string
+	for name, f := range rf {
+		for _, d := range f.Decls {
+			fd, ok := d.(*ast.FuncDecl)
+			if !ok || fd.Body == nil {
+				continue
+			}
+			if !hotFiles[name] && !(fd.Recv != nil && hotMethods[fd.Name.Name]) {
+				continue
+			}
+			// the two selectors of the per-type encode routine run while the node is built (under
+			// the build lock): they must be reachable from newTType only
+			if fd.Name.Name == "updateListAppendFunc" || fd.Name.Name == "updateMapAppendFunc" {
+				continue
+			}
+			descWrites = append(descWrites, descriptorWrites(fd)...)
+		}
+	}
+	for name, f := range rf {
+		for _, d := range f.Decls {
+			if fd, ok := d.(*ast.FuncDecl); ok && fd.Body != nil && fd.Name.Name != "newTType" &&
+				contains(fd.Body, `\bupdate(List|Map)AppendFunc\(`) {
+				descWrites = append(descWrites, fmt.Sprintf("\"%s:%s calls the node-building selector\"", name, fd.Name.Name))
+			}
+		}
+	}
+	sort.Strings(descWrites)
+	w("  descriptorWriteSites := %d\n  descriptorWriteSiteList := [%s]\n", len(descWrites), strings.Join(descWrites, ", "))
 	// C18 escape facts
 	hot, allHeap := escapeFacts(*repo, rf)
 	w("  hotPathHeapSites := %d\n  hotPathHeapSiteList := [%s]\n  escapeAnalysisRan := %v\n", len(hot), strings.Join(hot, ", "), allHeap >= 0)
@@ -1055,6 +1089,117 @@ func skeletonHash(label string, fds []*ast.FuncDecl, names []string, dump *strin
 		fmt.Fprintf(h, "--\n")
 	}
 	return fmt.Sprintf("%x", h.Sum(nil))[:24]
+}
+
+// descriptorWrites: places in fd where a field reached from a shared descriptor (a parameter, receiver
+// or local of type *tType / *structDesc / *tField) is assigned, incremented, or has its address taken
+func descriptorWrites(fd *ast.FuncDecl) []string {
+	isDescType := func(e ast.Expr) bool {
+		t := src(e)
+		return t == "*tType" || t == "*structDesc" || t == "*tField"
+	}
+	roots := map[string]bool{}
+	addFields := func(fl *ast.FieldList) {
+		if fl == nil {
+			return
+		}
+		for _, f := range fl.List {
+			if isDescType(f.Type) {
+				for _, n := range f.Names {
+					roots[n.Name] = true
+				}
+			}
+		}
+	}
+	addFields(fd.Recv)
+	addFields(fd.Type.Params)
+	// the root identifier of a selector / index / deref chain and the number of selectors in it
+	var chain func(e ast.Expr) (string, int)
+	chain = func(e ast.Expr) (string, int) {
+		switch x := e.(type) {
+		case *ast.Ident:
+			return x.Name, 0
+		case *ast.SelectorExpr:
+			r, n := chain(x.X)
+			return r, n + 1
+		case *ast.IndexExpr:
+			return chain(x.X)
+		case *ast.StarExpr:
+			return chain(x.X)
+		case *ast.ParenExpr:
+			return chain(x.X)
+		case *ast.CallExpr:
+			if se, ok := x.Fun.(*ast.SelectorExpr); ok && se.Sel.Name == "GetField" {
+				return chain(se.X)
+			}
+		}
+		return "", 0
+	}
+	derives := func(e ast.Expr) bool {
+		if ue, ok := e.(*ast.UnaryExpr); ok && ue.Op == token.AND {
+			e = ue.X
+		}
+		r, n := chain(e)
+		if !roots[r] {
+			return false
+		}
+		if ce, ok := e.(*ast.CallExpr); ok {
+			_ = ce
+			return true // GetField
+		}
+		if n == 0 {
+			return true
+		}
+		last := e
+		for {
+			if ie, ok := last.(*ast.IndexExpr); ok {
+				last = ie.X
+				continue
+			}
+			break
+		}
+		if se, ok := last.(*ast.SelectorExpr); ok {
+			switch se.Sel.Name {
+			case "K", "V", "Sd", "Type", "fields":
+				return true
+			}
+		}
+		return false
+	}
+	var out []string
+	site := func(kind string, e ast.Expr) {
+		out = append(out, fmt.Sprintf("\"%s:%s %s\"", fd.Name.Name, kind, strings.Join(strings.Fields(src(e)), " ")))
+	}
+	ast.Inspect(fd.Body, func(n ast.Node) bool {
+		switch x := n.(type) {
+		case *ast.AssignStmt:
+			if x.Tok == token.DEFINE {
+				for i, l := range x.Lhs {
+					if id, ok := l.(*ast.Ident); ok && i < len(x.Rhs) && len(x.Lhs) == len(x.Rhs) && derives(x.Rhs[i]) {
+						roots[id.Name] = true
+					}
+				}
+				return true
+			}
+			for _, l := range x.Lhs {
+				if r, k := chain(l); roots[r] && k > 0 {
+					site("assign", l)
+				}
+			}
+		case *ast.IncDecStmt:
+			if r, k := chain(x.X); roots[r] && k > 0 {
+				site("incdec", x.X)
+			}
+		case *ast.UnaryExpr:
+			if x.Op == token.AND {
+				if r, k := chain(x.X); roots[r] && k > 0 && !derives(x) {
+					site("addr", x.X)
+				}
+			}
+		}
+		return true
+	})
+	return out
 }
 
 func mustExpr(s string) ast.Expr {
